@@ -950,9 +950,10 @@ def pair_checks(keys, tier):
                 viol.append({"property": "C15", "site": "pairs:eq-wrong", "op": {"op": "compare"}, "detail": "indexes differing only in shape or common value compare ==: %r / %r, != gives %r: %r vs %r" % (e1, e2, n1, describe_key(k), describe_key(vk)), "state": k, "other": vk})
     # cross-shape and non-index comparisons
     some = sorted(keys, key=repr)[:: max(1, len(keys) // 200)]
-    for a in some:
+    for a in sorted(keys, key=repr):
         oa = build(a)
-        for other in (5, None, "x", {}, [], (1,), numpy.zeros(2)):
+        # non-index operands, incl. plain dicts with the very same keys (an index IS a dict subclass)
+        for other in (5, None, "x", {}, [], (1,), numpy.zeros(2), dict(dict.items(oa)), {k2: v2.tolist() for k2, v2 in dict.items(oa)}):
             npairs += 1
             try:
                 e = oa == other
@@ -962,7 +963,7 @@ def pair_checks(keys, tier):
                 continue
             if e is not False or n is not True:
                 viol.append({"property": "C15", "site": "pairs:non-index", "op": {"op": "compare"}, "detail": "index == %r gives %r, != gives %r" % (other, e, n), "state": a})
-        for b in some[:20]:
+        for b in (some[:20] if a in some else ()):
             if a[0] != b[0]:
                 npairs += 1
                 try:
